@@ -91,7 +91,7 @@ CLAIMED = {
          "structurally malformed descriptions built by construction (unknown action / direction, unparsable address or port, inverted range, missing from/to part) must be refused or ignored (UE address only); PFD Management sequences "
          "(whole-table replacement, rejected request keeps the table, unparsable entries, unknown application ids) are followed by PDRs naming application ids. TLC checks FilterMeansWhatItSays on the recorded entries, "
          "PfdTableReplacedOrKept and ProvisionedApplicationUsable (a well-formed establishment naming a provisioned application is not refused).",
-         "The reading of the UE-side endpoint is the as-written one (an explicit prefix or 'any' on the UE side replaces the UE address match, DESIGN A.1); UP4 applications entries pending with C04. " + TRUST,
+         "The reading of the UE-side endpoint is the as-written one (an explicit prefix or 'any' on the UE side replaces the UE address match, DESIGN A.1). UP4 shards: inline filters and PFD-provisioned applications (one description per direction) become applications entries; Up4Image!AppsOK and TermsOK judge them (Up4ApplicationsMeanWhatTheySay). " + TRUST,
          "5 C08"),
  "C13": ("TLA+ Notifier (rate limiter, model-checked) + R-spec Pfcp/TraceE2E!ReportEv: TLC judges every Session Report Request the real agent sends for datapath reports placed inside / outside the interval",
          "The harness writes F-SEIDs to the BESS notify socket for notifying, non-notifying, deleted and unknown sessions of one association; the notification interval is set to 200 ms through the guarded hook "
